@@ -10,6 +10,7 @@ import (
 
 	"github.com/creachadair/jrpc2"
 	"github.com/creachadair/jrpc2/channel"
+	"github.com/creachadair/jrpc2/internal/verifhook"
 )
 
 // Service is the interface used by the Loop function to start up a server.
@@ -109,6 +110,7 @@ func Loop(ctx context.Context, lst Accepter, newService func() Service, opts *Lo
 		go func() {
 			defer wg.Done()
 
+			verifhook.Point("loop.conn")
 			svc := newService()
 			assigner, err := svc.Assigner()
 			if err != nil {
@@ -124,6 +126,7 @@ func Loop(ctx context.Context, lst Accepter, newService func() Service, opts *Lo
 			go func() { <-sctx.Done(); srv.Stop() }()
 
 			stat := srv.WaitStatus()
+			verifhook.Point("loop.finish")
 			svc.Finish(assigner, stat)
 			if stat.Err != nil {
 				log("Server exit: %v", stat.Err)
